@@ -359,6 +359,19 @@ impl Driver for C12 {
                 };
                 m.cons.push(Con { name: Some("never".into()), kind: CKind::Assert(e) });
             }
+            // aggregations over nothing: an empty any is false, an empty all is true, and both have to be written somehow
+            if family.is_none() && rng.gen_bool(0.05) {
+                let bools: Vec<usize> = (0..m.n()).filter(|i| m.types[*i] == VT::Bool).collect();
+                if let Some(&b) = bools.first() {
+                    let e = match rng.gen_range(0..4) {
+                        0 => E::Or(vec![E::Var(b), E::Or(vec![])]),
+                        1 => E::And(vec![E::Var(b), E::And(vec![])]),
+                        2 => E::Implies(Box::new(E::And(vec![])), Box::new(E::Var(b))),
+                        _ => E::Or(vec![E::Not(Box::new(E::Or(vec![]))), E::Var(b)]),
+                    };
+                    m.cons.push(Con { name: Some("hollow".into()), kind: CKind::Assert(e) });
+                }
+            }
             // operands that are constant sub-expressions: a / (p / q), a - (p - q), a / (p * q), a * (p / q)
             if family.is_none() && rng.gen_bool(0.3) {
                 let nums: Vec<usize> = (0..m.n()).filter(|i| m.types[*i] != VT::Bool).collect();
